@@ -141,6 +141,71 @@ def run(ctx):
             ctx.violation("C05 fails on the real code (variable-rate engine, constant ratio): output differs between schedules %s (%s)" % (hs, cr.create_line(job["cfg"])),
                           {"cfg": job["cfg"], "env": job["env"], "N": job["N"], "schedules": {k: v[0] for k, v in out.items()}, "hashes": hs})
     ctx.count("vr_constant_ratio_jobs", nvr)
+    # ---- locality (Properties/C05 locality_runs; Cr/Cone.lean): one input frame of the REAL engine is moved; every output frame that
+    #      changes must have that input frame inside its cone, as the compiled driver computes it (`cr.cone` = coneI) from the exported plan
+    def loc_job(i):
+        rng = common.Rng(ctx.rng.next())
+        cfg, env = cr.gen_config(rng, rates=cr.small_ratio_grid(8)[rng.below(len(cr.small_ratio_grid(8)))] if rng.chance(.5) else None, max_up=40, max_down=60)
+        return {"cfg": cfg, "env": env, "seed": rng.next() & 0xffffffff}
+
+    def loc_work(job):
+        rng = common.Rng(job["seed"])
+        cfg, env = job["cfg"], job["env"]
+        tr0 = cr.run_trace(exe, [cr.create_line(cfg)], env, timeout=120)
+        if not tr0.created or not tr0.plan or not tr0.engine.startswith("cr"):
+            return job, "noplan", None
+        ratio = cr.io_ratio(cfg)
+        N = int(min(60000, max(2000, 12000 * ratio)))          # about 12000 output frames
+        nout = int(N / ratio)
+        if nout < 50 or nout > 400000:
+            return job, "size", None
+        at = rng.below(N)
+        head = [cr.create_line(cfg), "limit %d" % N, "window 0 %d 1" % nout]
+        body = ["feed %d %d 0" % (rng.choice([N, 4096, 7001, 1000]), nout + 64) for _ in range(N // 1000 + 2)] + ["hash"]     # streaming only: no end-of-input
+        ta = cr.run_trace(exe, head + body, env, timeout=300)
+        tb = cr.run_trace(exe, head[:2] + ["perturb %d 0.25" % at] + head[2:] + body, env, timeout=300)
+        xa = [l for l in ta.lines if l.startswith("X ")]; xb = [l for l in tb.lines if l.startswith("X ")]
+        if ta.rc != 0 or tb.rc != 0 or not xa or not xb:
+            return job, "crash", {"rc": (ta.rc, tb.rc), "err": (ta.err[-300:], tb.err[-300:])}
+        ha = xa[-1].split("h=")[1].strip().strip(",").split(","); hb = xb[-1].split("h=")[1].strip().strip(",").split(",")
+        delivered = min(sum(int(r["od"]) for r in ta.results), sum(int(r["od"]) for r in tb.results), len(ha), len(hb))
+        changed = [j for j in range(delivered) if ha[j] != hb[j]]
+        probe = changed if len(changed) <= 600 else changed[:200] + changed[-200:] + [changed[rng.below(len(changed))] for _ in range(200)]
+        lines = [l for l in tr0.model_in if l.startswith("cr.plan") or l.startswith("cr.stage")] + ["cr.cone " + " ".join(str(j) for j in probe)]
+        out = cr.run_model(lines)
+        cones = out[-1].split()[1:] if out and out[-1].startswith("CONE") else None
+        if cones is None or len(cones) != len(probe):
+            return job, "driver", {"out": out[-2:]}
+        bad = []
+        for j, c in zip(probe, cones):
+            if c == "?":
+                return job, "nofuel", None
+            if c == "-":
+                bad.append((j, c)); continue
+            a, b = (int(v) for v in c.split("-"))
+            if not (a <= at <= b):
+                bad.append((j, c))
+        return job, ("outside" if bad else "ok"), {"at": at, "N": N, "changed": len(changed), "first": changed[:1], "last": changed[-1:], "bad": bad[:5],
+                                                   "ops": head[:2] + ["perturb %d 0.25" % at] + head[2:] + body[:3] + ["..."], "plan": cr.plan_sig(tr0)}
+
+    nloc = nchg = 0
+    for job, how, info in cr.pmap(loc_work, [loc_job(i) for i in range(40 if ctx.quick else 1200)]):
+        ctx.count("evaluations")
+        ctx.hist("locality_case", how)
+        if how == "crash":
+            ctx.violation("C05 locality: run failed: %s (%s)" % (info, cr.create_line(job["cfg"])), {"cfg": job["cfg"], "env": job["env"]}, no_input=True)
+        elif how == "driver":
+            ctx.violation("C05 locality: the model driver did not answer cr.cone: %s" % info, {"cfg": job["cfg"]}, no_input=True)
+        elif how == "outside":
+            j, c = info["bad"][0]
+            ctx.violation("C05 fails on the real code: moving input frame %d changes output frame %d, whose cone of dependence is %s input frames (Cr/Cone.lean coneI on "
+                          "the exported plan; locality_runs): the engine reads outside the windows of the model (%s %s)" % (info["at"], j, c, cr.create_line(job["cfg"]), job["env"]),
+                          {"cfg": job["cfg"], "env": job["env"], "perturbed_input_frame": info["at"], "changed_output_frames_outside_their_cone": info["bad"],
+                           "ops": info["ops"], "plan": info["plan"]})
+        elif how == "ok":
+            nloc += 1; nchg += info["changed"]
+    ctx.count("locality_runs_compared", nloc)
+    ctx.count("locality_changed_frames_inside_cone", nchg)
     ctx.cov["distinct_nontrivial"] = len(distinct)
     ctx.cov["rule"] = ("per job one configuration (all engines, datatypes, layouts, 1-4 channels, dither off) and one stream of N frames run "
                        "through three schedules on the real library — soxr_oneshot-style single call, random push (sizes around every internal "
